@@ -426,6 +426,7 @@ package argmapper
 //@ ghost comb(f *Func, opts []Arg, i int) Arg = ite(i < len(f.callOpts), f.callOpts[i], opts[i - len(f.callOpts)])
 //@ ghost combLen(f *Func, opts []Arg) int = len(f.callOpts) + len(opts)
 //@ func (*Func).argBuilder
+//@   split-paths
 //@   ensures  [nil-option-is-an-error] forall(i, int, imp(0 <= i && i < combLen(f, old(opts)) && comb(f, old(opts), i) == nil, result0 == nil && result1 != nil))
 //@   ensures  [builder] imp(result0 != nil, wfB(result0) && fresh(result0) && !result0.redefining)
 //@   ensures  [defaults-then-call-options-last-wins] imp(result0 != nil, forall(i, int, k, string, imp(0 <= i && i < combLen(f, old(opts)) && setsNamed(comb(f, old(opts), i), k) && forall(j, int, imp(i < j && j < combLen(f, old(opts)), !setsNamed(comb(f, old(opts), j), k))), has(result0.named, k) && result0.named[k] == namedVal(comb(f, old(opts), i)))))
